@@ -248,6 +248,7 @@ impl Process for GatedRecorder {
 /// is larger than, equal to or smaller than the mailbox. Every accepted message is handled exactly once and
 /// each sender's messages in the order that sender issued them.
 async fn burst(ctx: &Ctx, rng: &mut Rng, hid: usize) {
+    ctx.beat(&format!("burst/{}", hid));
     let mut node = Node::new(format!("burst{}@127.0.0.1", hid), "cookie");
     if let Err(e) = node.start(0).await {
         ctx.inconclusive(&format!("Node::start failed: {}", e));
@@ -325,6 +326,7 @@ async fn burst(ctx: &Ctx, rng: &mut Rng, hid: usize) {
 }
 
 async fn history(ctx: &Ctx, rng: &mut Rng, hid: usize, yields: bool) {
+    ctx.beat(&format!("history/{}", hid));
     let log: Arc<Log> = Arc::new(Log::default());
     let mut node = Node::new(format!("local{}@127.0.0.1", hid), "cookie");
     if let Err(e) = node.start(0).await {
